@@ -459,7 +459,8 @@ func genC08(g *genCtx) {
 	}
 	// §3.5: `- - e` is number(e) whatever the type of e (a metamorphic pair on the package alone: the oracle
 	// evaluates the parse tree, so a parser that drops the signs is invisible to it)
-	opnds := []string{"true()", "false()", "'1'", "'abc'", "' 12 '", "''", "a", "//b", "@k", "string(.)", "count(*) > 1", "'1' = '1.0'", "(1 = 1)", "concat('1', '2')"}
+	// (primary expressions only: unary minus binds tighter than every binary operator)
+	opnds := []string{"true()", "false()", "'1'", "'abc'", "' 12 '", "''", "a", "//b", "@k", "string(.)", "(count(*) > 1)", "('1' = '1.0')", "(1 = 1)", "concat('1', '2')"}
 	for i := 0; i < g.scale(1500, 10000); i++ {
 		d := pool[r.intn(len(pool))]
 		ctx := pickNodeCtx(r, d)
@@ -475,7 +476,7 @@ func genC08(g *genCtx) {
 			e1, e2 = "string("+e1+")", "string("+e2+")"
 		case 1:
 			y := r.pick([]string{"'1.0'", "'abc'", "1", "true()", "'1'"})
-			e1, e2 = e1+" = "+y, e2+" = "+y
+			e1, e2 = "("+e1+") = "+y, e2+" = "+y
 		}
 		g.add(&Case{Kind: "meta", Doc: d, Ctx: ctx, Expr: e1, Extra: "val;" + ctx.String() + ";" + hx(e2)})
 	}
